@@ -324,4 +324,249 @@ theorem NF_stable {a : Arg} (h : NF isReg a) (lk : Bytes → Lookup) : evaluateE
 
 end
 
+/-! ## the strip loop and the sign normalisation on an `NF` operand -/
+
+theorem findC_add_sub (t : Arg) (i : Bool) : findC .add t i = findC .sub t i := by
+  induction t using Arg.ind generalizing i with
+  | bin op l r ihl ihr =>
+    simp only [findC]
+    have : sameFam .add op = sameFam .sub op := by cases op <;> rfl
+    rw [this]
+    split
+    · split
+      · split
+        · rfl
+        · rfl
+        · rfl
+        · rw [ihl, ihr]
+      · rfl
+    · rfl
+  | neg v ih => simp only [findC, isAddSub]; exact ih _
+  | _ => rfl
+
+theorem fnd_add_sub (t : Arg) : fnd .add t = fnd .sub t := by
+  unfold fnd; rw [findC_add_sub]
+
+def additive (op : BinOp) : Prop := op = .add ∨ op = .sub
+
+theorem fnd_additive {op op' : BinOp} (h : additive op) (h' : additive op') (t : Arg) : fnd op t = fnd op' t := by
+  rcases h with rfl | rfl <;> rcases h' with rfl | rfl <;> first | rfl | exact fnd_add_sub t | exact (fnd_add_sub t).symm
+
+theorem fnd_neg {op : BinOp} (h : additive op) {n : Arg} (hn : isC n = false) : fnd op (.neg n) = fnd op n := by
+  have hi : isAddSub op = true := by rcases h with rfl | rfl <;> rfl
+  unfold fnd
+  simp only [isC_neg, Bool.false_or, hn, findC, hi, if_true]
+  rw [findC_isFound_inv]
+
+theorem stripNeg_not_neg {r : Arg} (h : ∀ n, r ≠ .neg n) (b : Bool) : stripNeg b r = (b, r, false) := by
+  cases r with
+  | neg n => exact absurd rfl (h n)
+  | _ => rfl
+
+section
+variable {isReg : Bytes → Bool}
+
+theorem NF_neg_inv {n : Arg} (h : NF isReg (.neg n)) :
+    NF isReg n ∧ isBad n = false ∧ isC n = false ∧ ∀ x y, n ≠ .bin .sub x y := by
+  simp only [NF] at h
+  exact ⟨h.1, lfix_neg h.2⟩
+
+/-- the strip loop on an `NF` operand -/
+theorem stripNeg_NF (r : Arg) (hr : NF isReg r) (b : Bool) :
+    NF isReg (stripNeg b r).2.1 ∧ (∀ n, (stripNeg b r).2.1 ≠ .neg n) ∧ isC (stripNeg b r).2.1 = isC r ∧
+    (∀ x y, (stripNeg b r).2.1 = .bin .sub x y → r = .bin .sub x y ∧ (stripNeg b r).1 = b) ∧
+    (∀ op, additive op → fnd op (stripNeg b r).2.1 = fnd op r) := by
+  induction r using Arg.ind generalizing b with
+  | neg n ih =>
+    obtain ⟨hn, _, hc, hs⟩ := NF_neg_inv hr
+    obtain ⟨i1, i2, i3, i4, i5⟩ := ih hn (!b)
+    simp only [stripNeg]
+    refine ⟨i1, i2, by rw [i3, hc]; rfl, fun x y hxy => ?_, fun op hop => (by rw [i5 op hop, fnd_neg hop hc])⟩
+    exact absurd (i4 x y hxy).1 (hs x y)
+  | _ => exact ⟨hr, fun n h => (by cases h), rfl, fun x y h => ⟨h, rfl⟩, fun _ _ => rfl⟩
+
+/-- the add/sub normalisation on an `NF` operand -/
+theorem normAddSub_NF {s : Bool} {r : Arg} (hr : NF isReg r) {ch s' : Bool} {r' : Arg}
+    (he : normAddSub s r = .ok (ch, s', r')) :
+    NF isReg r' ∧ (∀ n, r' ≠ .neg n) ∧ (∀ v, cval r' = some v → ¬ v < 0) ∧ isC r' = isC r ∧
+    (∀ x y, r' = .bin .sub x y → r = .bin .sub x y ∧ s' = s) ∧
+    (∀ op, additive op → fnd op r' = fnd op r) := by
+  unfold normAddSub at he
+  obtain ⟨i1, i2, i3, i4, i5⟩ := stripNeg_NF r hr s
+  cases hc : cval (stripNeg s r).2.1 with
+  | none =>
+    simp only [hc, Res.ok.injEq, Prod.mk.injEq] at he
+    obtain ⟨_, rfl, rfl⟩ := he
+    exact ⟨i1, i2, fun v hv => (by rw [hc] at hv; cases hv), i3, fun x y h => i4 x y h, i5⟩
+  | some v =>
+    simp only [hc] at he
+    by_cases hv : v < 0
+    · simp only [hv, if_true] at he
+      cases hn : checkedNeg v with
+      | none => simp [hn] at he
+      | some nv =>
+        simp only [hn, Res.ok.injEq, Prod.mk.injEq] at he
+        obtain ⟨_, _, rfl⟩ := he
+        have hnv : nv = -v := by
+          unfold checkedNeg checked at hn
+          split at hn <;> simp at hn; exact hn.symm
+        have hcs : isC (stripNeg s r).2.1 = true := cval_some_isC hc
+        refine ⟨trivial, fun n h => (by cases h), fun w hw => ?_, by rw [← i3, hcs]; rfl, fun x y h => (by cases h),
+          fun op hop => ?_⟩
+        · simp only [cval, Option.some.injEq] at hw; omega
+        · rw [← i5 op hop]
+          unfold fnd
+          simp [hcs]
+    · simp only [hv, if_false, Res.ok.injEq, Prod.mk.injEq] at he
+      obtain ⟨_, rfl, rfl⟩ := he
+      exact ⟨i1, i2, fun w hw => (by rw [hc] at hw; cases hw; exact hv), i3, fun x y h => i4 x y h, i5⟩
+
+/-- the normalisation is idempotent -/
+theorem normAddSub_fix {s : Bool} {r : Arg} (h1 : ∀ n, r ≠ .neg n) (h2 : ∀ v, cval r = some v → ¬ v < 0) :
+    normAddSub s r = .ok (false, s, r) := by
+  unfold normAddSub
+  rw [stripNeg_not_neg h1]
+  cases hc : cval r with
+  | none => simp only [hc]
+  | some v => simp only [hc, if_neg (h2 v hc)]
+
+end
+
+/-! ## `neutralize_raw` on a node with `NF` operands where no merge is possible -/
+
+section
+variable {isReg : Bytes → Bool}
+
+theorem neutralTail_ok {ch : Bool} {op : BinOp} {l r : Arg} {c : Bool} {a' : Arg}
+    (he : neutralTail ch op l r = .ok (c, a')) :
+    isBad l = false ∧ isBad r = false ∧ c = ch ∧ a' = neutralMain op l r := by
+  unfold neutralTail at he
+  cases h1 : isBad l with
+  | true => simp [h1] at he
+  | false =>
+    cases h2 : isBad r with
+    | true => simp [h1, h2] at he
+    | false =>
+      simp only [h1, h2, Bool.false_eq_true, if_false, Res.ok.injEq, Prod.mk.injEq] at he
+      exact ⟨rfl, rfl, he.1.symm, he.2.symm⟩
+
+theorem neutralTail_intro {ch : Bool} {op : BinOp} {l r : Arg} (h1 : isBad l = false) (h2 : isBad r = false) :
+    neutralTail ch op l r = .ok (ch, neutralMain op l r) := by
+  unfold neutralTail
+  simp [h1, h2]
+
+theorem opOf_additive {op : BinOp} (h : additive op) : (if decide (op = .sub) = true then BinOp.sub else BinOp.add) = op := by
+  rcases h with rfl | rfl <;> rfl
+
+/-- a binary node on which every pass of `simplify_raw` is the identity is `NF` -/
+theorem NF_bin_intro {op : BinOp} {l r : Arg} (hl : NF isReg l) (hr : NF isReg r) (h1 : isBad l = false)
+    (h2 : isBad r = false) (hlr : ¬ (isC l = true ∧ isC r = true))
+    (hstr : additive op → (∀ n, r ≠ .neg n) ∧ (∀ v, cval r = some v → ¬ v < 0))
+    (hmain : neutralMain op l r = .bin op l r)
+    (hb : mergeable op = true → bothFound op l r = false) (hm : op = .mod → modCollapse l r = false) :
+    NF isReg (.bin op l r) := by
+  simp only [NF]
+  refine ⟨hl, hr, lfix_bin_intro h1 h2 hlr ?_ hb hm (mergeL_ne_panic op l (NF_nb hl)) (mergeR_ne_panic op r (NF_nb hr))⟩
+  have hbin : neutralizeRaw (.bin op l r) = neutralizeBin op l r := by
+    rcases neutralizeRaw_bin_cases op l r with h0 | ⟨x, y, rfl, rfl, rfl, _⟩
+    · exact h0
+    · simp [neutralMain, cval, neutralL] at hmain
+  rw [hbin]
+  by_cases hop : op = .add ∨ op = .sub
+  · obtain ⟨s1, s2⟩ := hstr hop
+    simp only [neutralizeBin, hop, if_true, normAddSub_fix s1 s2, opOf_additive hop]
+    rw [neutralTail_intro h1 h2, hmain]
+  · simp only [neutralizeBin, hop, if_false]
+    rw [neutralTail_intro h1 h2, hmain]
+
+theorem bothFound_eq (op : BinOp) (l r : Arg) (hd : op ≠ .div) : bothFound op l r = (fnd op l && fnd op r) := by
+  unfold bothFound
+  rw [mergeL_isFound, mergeR_isFound op r hd]
+
+theorem additive_mergeable {op : BinOp} (h : additive op) : mergeable op = true := by
+  rcases h with rfl | rfl <;> rfl
+
+theorem additive_ne_div {op : BinOp} (h : additive op) : op ≠ .div := by
+  rcases h with rfl | rfl <;> intro h <;> cases h
+
+/-- **the passes of `neutralize_raw` on `NF` operands that cannot be merged yield an `NF` tree** -/
+theorem neutralizeBin_NF {op : BinOp} {l r : Arg} (hl : NF isReg l) (hr : NF isReg r)
+    (hlr : ¬ (isC l = true ∧ isC r = true))
+    (hb : mergeable op = true → bothFound op l r = false) (hm : op = .mod → modCollapse l r = false)
+    (h0 : l = .const 0 → op = .sub → ∀ x y, r ≠ .bin .sub x y)
+    {c : Bool} {a' : Arg} (he : neutralizeBin op l r = .ok (c, a')) : NF isReg a' ∧ isBad a' = false := by
+  have key : ∃ op' r', NF isReg r' ∧ isBad l = false ∧ isBad r' = false ∧ a' = neutralMain op' l r' ∧ isC r' = isC r ∧
+      (additive op' → (∀ n, r' ≠ .neg n) ∧ (∀ v, cval r' = some v → ¬ v < 0)) ∧
+      (mergeable op' = true → bothFound op' l r' = false) ∧ (op' = .mod → modCollapse l r' = false) ∧
+      (l = .const 0 → op' = .sub → ∀ x y, r' ≠ .bin .sub x y) := by
+    by_cases hop : op = .add ∨ op = .sub
+    · simp only [neutralizeBin, hop, if_true] at he
+      cases hn : normAddSub (decide (op = .sub)) r with
+      | err e => simp [hn] at he
+      | panic => simp [hn] at he
+      | ok p =>
+        obtain ⟨ch, s', r'⟩ := p
+        simp only [hn] at he
+        obtain ⟨t1, t2, _, t4⟩ := neutralTail_ok he
+        obtain ⟨n1, n2, n3, n4, n5, n6⟩ := normAddSub_NF hr hn
+        have hop' : additive (if s' = true then BinOp.sub else BinOp.add) := by
+          cases s' <;> simp [additive]
+        refine ⟨_, r', n1, t1, t2, t4, n4, fun _ => ⟨n2, n3⟩, fun _ => ?_, fun hx => ?_, fun hl0 hs x y hxy => ?_⟩
+        · have h1 := hb (additive_mergeable hop)
+          rw [bothFound_eq _ _ _ (additive_ne_div hop)] at h1
+          rw [bothFound_eq _ _ _ (additive_ne_div hop'), fnd_additive hop' hop l, n6 _ hop', fnd_additive hop' hop r]
+          exact h1
+        · cases s' <;> simp at hx
+        · obtain ⟨g1, g2⟩ := n5 x y hxy
+          have hs' : s' = true := by
+            cases s'
+            · simp at hs
+            · rfl
+          rw [hs'] at g2
+          have : op = .sub := by simpa using g2.symm
+          exact h0 hl0 this x y g1
+    · simp only [neutralizeBin, hop, if_false] at he
+      obtain ⟨t1, t2, _, t4⟩ := neutralTail_ok he
+      exact ⟨op, r, hr, t1, t2, t4, rfl, fun h => absurd h hop, hb, hm, h0⟩
+  obtain ⟨op', r', hr', b1, b2, ha, hcr, hstr, hb', hm', h0'⟩ := key
+  have hlr' : ¬ (isC l = true ∧ isC r' = true) := by rw [hcr]; exact hlr
+  subst ha
+  cases hcl : cval l with
+  | some v =>
+    have hlc := cval_some_eq hcl
+    have hcr' : isC r' = false := by
+      cases hx : isC r'
+      · rfl
+      · exact (hlr' ⟨cval_some_isC hcl, hx⟩).elim
+    by_cases hn1 : some v = neutralL op'
+    · have : neutralMain op' l r' = r' := by unfold neutralMain; simp only [hcl]; rw [if_pos hn1]
+      rw [this]; exact ⟨hr', b2⟩
+    · by_cases hn2 : op' = .sub ∧ v = 0
+      · have : neutralMain op' l r' = .neg r' := by unfold neutralMain; simp only [hcl]; rw [if_neg hn1, if_pos hn2]
+        rw [this]
+        refine ⟨?_, rfl⟩
+        simp only [NF]
+        exact ⟨hr', lfix_neg_intro b2 hcr' (h0' (by rw [hlc, hn2.2]) hn2.1)⟩
+      · have hmain : neutralMain op' l r' = .bin op' l r' := by
+          unfold neutralMain; simp only [hcl, hn1, if_false, hn2]
+        rw [hmain]
+        exact ⟨NF_bin_intro hl hr' b1 b2 hlr' hstr hmain hb' hm', rfl⟩
+  | none =>
+    cases hcr2 : cval r' with
+    | some v =>
+      by_cases hn1 : some v = neutralR op'
+      · have : neutralMain op' l r' = l := by unfold neutralMain; simp only [hcl, hcr2]; rw [if_pos hn1]
+        rw [this]; exact ⟨hl, b1⟩
+      · have hmain : neutralMain op' l r' = .bin op' l r' := by
+          unfold neutralMain; simp only [hcl, hcr2, hn1, if_false]
+        rw [hmain]
+        exact ⟨NF_bin_intro hl hr' b1 b2 hlr' hstr hmain hb' hm', rfl⟩
+    | none =>
+      have hmain : neutralMain op' l r' = .bin op' l r' := by
+        unfold neutralMain; simp only [hcl, hcr2]
+      rw [hmain]
+      exact ⟨NF_bin_intro hl hr' b1 b2 hlr' hstr hmain hb' hm', rfl⟩
+
+end
+
 end Trion.Simp
